@@ -1325,8 +1325,17 @@ func (r *Run) evalLoc(env *SpecEnv, e Expr) *Loc {
 // the first time that function is used in a run.
 func (r *Run) emitAxiomsFor(pf *PureFunc) {
 	for _, ax := range r.eng.axioms {
-		if ax.PkgPath != pf.PkgPath || !mentionsCall(ax.E, pf.Name) {
+		if !mentionsCall(ax.E, pf.Name) {
 			continue
+		}
+		if ax.PkgPath != pf.PkgPath {
+			// a package's axiom about a library spec function (only when the package has no function of that name)
+			if _, own := r.eng.pures[ax.PkgPath+"::"+pf.Name]; own || pf.PkgPath != "" {
+				continue
+			}
+			if r.top == nil || r.top.Pkg == nil || r.top.Pkg.Pkg.Path() != ax.PkgPath {
+				continue // only in runs of that package's own functions
+			}
 		}
 		key := ax.PkgPath + "::" + ax.Name + "::" + ax.Src
 		if r.axiomsDone[key] {
